@@ -758,6 +758,10 @@ pub fn generate(seed: u64, limits: &GenLimits, allowed: &Features) -> GenProblem
         }
     }
 
+    if f.time_dependent && cx.p.chance(0.5) {
+        // the matrices of a profile may be supplied in any order (they carry their timestamps)
+        cx.p.shuffle(&mut matrices);
+    }
     GenProblem { problem, matrices, features: f }
 }
 
